@@ -39,15 +39,16 @@ def rand_string(rng, allow_nl=True, maxlen=12):
 
 
 def rand_tree(rng, depth, budget, names_nl=False):
-    """A random tree as JSON: leaf [0,name,value] / block [1,name,[children]] with str fields.
+    """A random tree as JSON: leaf [0,name,value] / block [1,name,[children]] with str fields, of depth
+    (edges from the node to its deepest descendant) <= `depth` and width <= 6.
     `budget` is a one-element list holding the remaining node budget."""
     budget[0] -= 1
     name = rand_string(rng, allow_nl=names_nl)
-    if depth <= 0 or budget[0] <= 0 or rng.random() < 0.45:
-        if rng.random() < 0.8:
+    if depth <= 0 or budget[0] <= 0 or rng.random() < 0.3:
+        if depth <= 0 or rng.random() < 0.8:
             return [0, name, rand_string(rng, allow_nl=True, maxlen=16)]
         return [1, name, []]          # empty block
-    width = rng.choice([0, 1, 1, 2, 2, 3, 4, 6])
+    width = rng.choice([0, 1, 2, 2, 3, 3, 4, 5, 6])
     kids = []
     for _ in range(width):
         if budget[0] <= 0:
@@ -63,14 +64,12 @@ def tree_stats(t):
     """(nodes, depth, max width, has empty block, has duplicate sibling names, has empty name)"""
     if t[0] == 0:
         return 1, 0, 0, False, False, t[1] == ''
-    n, d, w, e, dup, en = 1, 0, len(t[2]), not t[2], False, t[1] == ''
+    n, d, w, e, en = 1, 0, len(t[2]), not t[2], t[1] == ''
     names = [k[1] for k in t[2]]
     dup = len(set(names)) < len(names)
     for k in t[2]:
         a = tree_stats(k)
         n += a[0]; d = max(d, a[1] + 1); w = max(w, a[2]); e = e or a[3]; dup = dup or a[4]; en = en or a[5]
-    if not t[2]:
-        d = 1
     return n, d, w, e, dup, en
 
 
